@@ -4,7 +4,7 @@ PROP = dict(
     gen=["WalletConsts", "WalletV5Id", "TlbTypes"],
     # the model IS the specification for these ops: the address is defined as the hash of the state-init laid out as
     # the TON schema says, the send parameters and the confirmation verdict are what the property states
-    spec_ops=("w.addr", "w.gwa", "w.gsi", "w.send", "w.sendc", "w.ctx", "cell.hash", "seed.key", "prim.sha512", "prim.hmac512", "prim.pbkdf2_512"),
+    spec_ops=("w.addr", "w.gwa", "w.gsi", "w.codehash", "w.send", "w.sendc", "w.ctx", "cell.hash", "seed.key", "prim.sha512", "prim.hmac512", "prim.pbkdf2_512"),
     rule="addresses: every supported version x random Ed25519 keys x workchain in {default,0,-1,1,127,-128,255} x "
          "sub-wallet id in {default,0,2^32-1,698983191(+-1),random} x network id in {default,-239,-3,0,int32 bounds,random} "
          "through New().GetAddress, GenerateWalletAddress, GenerateStateInit; unsupported versions and odd key lengths; "
@@ -61,6 +61,9 @@ PROP = dict(
         "Ed25519 key expansion is not modelled (the 32-byte Ed25519 seed is compared)",
     ],
     partial=[
+        "the code cells of the twelve versions are pinned to the published hashes by the spec table publishedCodeHash compared with "
+        "wallet.GetCodeByVer on every run (op w.codehash; the same hashes stand in abi/interfaces.go); code_hashes_pairwise_distinct "
+        "/ code_hash_table_ok instantiate the distinctness hypothesis on that table - the cells themselves stay inputs of the model",
         "'different key / version / workchain / sub-wallet / network give different addresses' is FALSE as literally stated: "
         "the option changes listed in address_exceptions (v5r1 and v1/v2 ignore the sub-wallet id; v1/v2/v3/v4/highload ignore the "
         "network id; absent option = explicit default; workchains equal modulo 2^32) do not change the address. What is proved "
